@@ -104,8 +104,14 @@ class Gen:
             self.ops.append({"ev": "register", "o": o, "n": n, "id": hid})
         elif x < 0.49 + w_reg + w_fill and st["pend"]:
             hid = rng.choice(list(st["pend"]))
-            del st["pend"][hid]
-            self.ops.append({"ev": "backfill", "o": o, "id": hid, "v": 252 + hid % 4})
+            if rng.random() < 0.04:
+                # wrong size: documented panic; this placeholder stays pending for the rest of the run
+                st.setdefault("dead", set()).add(hid)
+                del st["pend"][hid]
+                self.ops.append({"ev": "bad_backfill", "o": o, "id": hid})
+            else:
+                del st["pend"][hid]
+                self.ops.append({"ev": "backfill", "o": o, "id": hid, "v": 252 + hid % 4})
         elif x < 0.80:
             kind = rng.choice(["consume", "consume", "advance", "advance", "read", "pop"])
             if kind == "consume":
@@ -120,7 +126,8 @@ class Gen:
                                         {"ev": "take_arena", "o": o}]))
         elif x < 0.86 and len(live) >= 2:
             self.ops.append({"ev": "swap_arena", "o": o, "p": rng.choice([q for q in live if q != o])})
-        elif x < 0.86 + (0.08 if p == "clone" else 0.03) and len(live) < 3 and not st["pend"]:
+        elif x < 0.86 + (0.08 if p == "clone" else 0.03) and len(live) < 3 and (not st["pend"] or rng.random() < 0.15) \
+                and not st.get("dead"):
             to = self.next_obj
             self.next_obj += 1
             self.objs[to] = {"pos": st["pos"], "pend": {}, "bytes": st["bytes"]}
@@ -218,6 +225,26 @@ def scripted_runs(start):
            {"ev": "push_anchored", "o": 1, "d": [0, 100, 200]}, {"ev": "flush", "o": 1},
            {"ev": "ensure", "o": 1, "n": 70000}, {"ev": "consume", "o": 1, "n": 1}, {"ev": "advance", "o": 1, "n": 50},
            {"ev": "read", "o": 1, "n": 1000}, {"ev": "drop", "o": 1}]
+    run(ops)
+    # anchors of chunk K, another chunk, K again; clone; the original goes away first; the clone is consumed slice by slice
+    ops = [{"ev": "new", "o": 1}, {"ev": "hold", "o": 1, "h": 1, "d": [0, 0, 300]}, {"ev": "hold", "o": 1, "h": 2, "d": [0, 44, 300]},
+           {"ev": "ensure", "o": 1, "n": 70000}, {"ev": "hold", "o": 1, "h": 3, "d": [0, 88, 300]},
+           {"ev": "held_op", "h": 1, "what": "push", "o": 1}, {"ev": "held_op", "h": 3, "what": "push", "o": 1},
+           {"ev": "held_op", "h": 2, "what": "push", "o": 1}, {"ev": "clone", "o": 1, "to": 2}, {"ev": "drop", "o": 1},
+           {"ev": "consume", "o": 2, "n": 1}, {"ev": "consume", "o": 2, "n": 1}, {"ev": "read", "o": 2, "n": 1000},
+           {"ev": "drop", "o": 2}]
+    run(ops)
+    # take when the very first slice is a pending placeholder
+    ops = [{"ev": "new", "o": 1}, {"ev": "register", "o": 1, "n": 2, "id": 1}, {"ev": "push", "o": 1, "m": "copy", "d": [0, 2, 50]},
+           {"ev": "take", "o": 1, "to": 2}, {"ev": "push", "o": 1, "m": "copy", "d": [0, 7, 3]},
+           {"ev": "backfill", "o": 2, "id": 1, "v": 253}, {"ev": "read", "o": 2, "n": 100}, {"ev": "read", "o": 1, "n": 100},
+           {"ev": "drop", "o": 1}, {"ev": "drop", "o": 2}]
+    run(ops)
+    # a backfill of the wrong size panics and leaves the placeholder pending; a clone taken while it is pending hides it too
+    ops = [{"ev": "new", "o": 1}, {"ev": "push", "o": 1, "m": "copy", "d": [0, 0, 5]}, {"ev": "register", "o": 1, "n": 2, "id": 1},
+           {"ev": "push", "o": 1, "m": "copy", "d": [0, 7, 30]}, {"ev": "clone", "o": 1, "to": 2},
+           {"ev": "bad_backfill", "o": 1, "id": 1}, {"ev": "read", "o": 1, "n": 100}, {"ev": "read", "o": 2, "n": 100},
+           {"ev": "drop", "o": 1}, {"ev": "drop", "o": 2}]
     run(ops)
     return R
 
